@@ -89,10 +89,11 @@ class Ctx:
             raise MachineryError("TLC failed on %s/%s (%s):\n%s" % (spec_dir, module, cfg_path, res.error))
         self.states += res.distinct
         self.transitions += res.generated
-        self.models.append({"module": module, "cfg": os.path.basename(cfg_path), "distinct": res.distinct,
-                            "generated": res.generated, "depth": res.depth, "wall_s": round(res.wall, 1),
-                            "violation": res.violation,
-                            "coverage": {k: "%d:%d" % v for k, v in sorted(res.coverage.items())}})
+        res.model = {"module": module, "cfg": os.path.basename(cfg_path), "distinct": res.distinct,
+                     "generated": res.generated, "depth": res.depth, "wall_s": round(res.wall, 1),
+                     "violation": res.violation,
+                     "coverage": {k: "%d:%d" % v for k, v in sorted(res.coverage.items())}}
+        self.models.append(res.model)     # (list.append is atomic; callers use res.model, not models[-1])
         return res
 
     def check_coverage(self, res, must_take, label=""):
@@ -211,12 +212,12 @@ def graph_replay(ctx, spec_dir, module, cfg, tag, replayer, proj_keys, header_fn
     except OSError:
         pass
     # replace "generated" by the true number of edges of the dumped graph for this model
-    ctx.models[-1]["edges"] = g.nedges()
+    res.model["edges"] = g.nedges()
     paths, covered, total = vlib.cover_paths(g, ctx.rng, max_paths=max_paths, want_terminal=terminal)
     if extra_random:
         paths += vlib.random_paths(g, ctx.rng, extra_random)
-    ctx.models[-1]["edges_replayed"] = covered
-    ctx.models[-1]["paths"] = len(paths)
+    res.model["edges_replayed"] = covered
+    res.model["paths"] = len(paths)
     if covered < total:
         ctx.exhaustive = False
     script = os.path.join(vlib.BUILD, "%s_%s.script" % (ctx.prop, tag))
